@@ -403,11 +403,17 @@ Theorem C07_no_solicited_tx_for_broadcast : forall AP cfg s answers from m bytes
 Proof. exact no_solicited_tx_for_broadcast. Qed.
 Print Assumptions C07_no_solicited_tx_for_broadcast.
 
-(* a broadcast CONFIRM completes neither a solicited nor an unsolicited confirm wait *)
+(* a broadcast CONFIRM completes neither a solicited nor an unsolicited confirm wait; the only broadcast
+   that ends an unsolicited confirm wait is a DISABLE_UNSOLICITED the outstation processes (repair of
+   F30): it cancels the series (UrReturnToIdle, never UrConfirmed), like the unicast one *)
 Theorem C07_broadcast_confirms_nothing : forall cfg s from m bytes d,
   (forall se dl, exists oc o, sol_wait_fragment cfg s se dl from (Some m) bytes d = (oc, o) /\
                               forall x, oc <> SoConfirmed x) /\
-  (forall resp fid, snd (fst (unsol_wait_fragment cfg s resp from (Some m) bytes d fid)) = None).
+  (forall resp fid, snd (fst (unsol_wait_fragment cfg s resp from (Some m) bytes d fid)) =
+                    match to_treq cfg from d with
+                    | TqRequest _ fn obj => if bcast_disable_processed cfg fn obj then Some UrReturnToIdle else None
+                    | _ => None
+                    end).
 Proof. exact broadcast_confirms_nothing. Qed.
 Print Assumptions C07_broadcast_confirms_nothing.
 
@@ -438,3 +444,18 @@ Example C07_session_instance :
        OInfo (IEnterSolWait 1)];
       [] ].
 Proof. vm_compute. reflexivity. Qed.
+
+(* while the null unsolicited response of start-up awaits its confirm: a broadcast CONFIRM confirms
+   nothing (the wait goes on); a broadcast DISABLE_UNSOLICITED is processed and cancels the series
+   (repair of F30) - the outstation returns to idle and sends the null unsolicited response anew, with
+   the next sequence number; neither is answered *)
+Example C07_broadcast_in_unsol_wait_instance :
+  orun c07_session_cfg (fst (ostart c07_session_cfg 0 0 0 [AEvinfo false false false false]))
+    [ (ERx 1 (Some BOptional) [208; 0] (DOk 208 0 RvOk (ObjOk [] [])), []);
+      (ERx 1 (Some BOptional) [194; 21] (DOk 194 21 RvOk (ObjOk [] [])), [AEvinfo false false false false]) ]
+  = [ [OInfo (IBroadcast 0 3 0)];
+      [OInfo (IBroadcast 21 0 0); ODb DbEvinfo; OTx 1 [241; 130; 129; 0]; OInfo (IEnterUnsolWait 1)] ]
+  /\ snd (fst (unsol_wait_fragment c07_session_cfg
+                 (fst (ostart c07_session_cfg 0 0 0 [AEvinfo false false false false])) (unsol_header 0 0)
+                 1 (Some BOptional) [194; 21] (DOk 194 21 RvOk (ObjOk [] [])) 1)) = Some UrReturnToIdle.
+Proof. vm_compute. split; reflexivity. Qed.
